@@ -194,6 +194,10 @@ class Ranges:
             if all(r.values is not None for r in rs):
                 vals = frozenset().union(*[r.values for r in rs])
             return Rng(max(r.lo for r in rs), max(r.hi for r in rs), all(r.integer for r in rs), vals)
+        if name == 'or' and args and all(isinstance(x, Poly) for x in args):
+            # `x or c` is one of its operands
+            rs = [self.of(x) for x in args]
+            return Rng(min(r.lo for r in rs), max(r.hi for r in rs), all(r.integer for r in rs))
         if name in ('ones', 'ones_like'):
             return const(1)
         if name in ('zeros', 'zeros_like'):
